@@ -7,7 +7,8 @@
 //   tmo      0: after the last chunk the peer closes (EOF); 1: the peer stays silent, i.e. while a read deadline is
 //            armed (header phase) the Read fails with a timeout error; once the deadline is cleared it reports EOF
 // output: [src dst data err closed]
-//   src/dst  [] = socket address kept / no virtual address ; [ip port] = address taken from the header
+//   src/dst  [] = socket address kept / no virtual address ; [ip port] = address taken from the header; dst carries a
+//            third element 1 iff BalancerAddr() is the socket peer and LocalAddr() the socket's own address
 //   data     every byte the application could read ; err 0 = EOF, 1 = read on closed socket, 2 = header error
 //   closed   1 iff BFE closed the underlying connection
 package main
@@ -134,10 +135,19 @@ func impl(in hv.Val) hv.Val {
 	} else {
 		src = addrVal(ra)
 	}
+	// BalancerAddr() must be the socket's peer exactly when a virtual address is reported, LocalAddr() always the socket's
+	balOK := pc.LocalAddr() == sc.LocalAddr()
 	if va := pc.VirtualAddr(); va == nil {
 		dst = hv.L{}
+		if pc.BalancerAddr() != nil || !balOK {
+			dst = hv.L{hv.I(-1)}
+		}
 	} else {
-		dst = addrVal(va)
+		flag := 0
+		if pc.BalancerAddr() == sc.RemoteAddr() && balOK {
+			flag = 1
+		}
+		dst = append(addrVal(va).(hv.L), hv.I(flag))
 	}
 	var data []byte
 	buf := make([]byte, 97)
